@@ -27,10 +27,23 @@ def plusOK (e : Entry) : Bool :=
   | _ :: _ :: (c :: _) :: _ => c == PLUS
   | _ => false
 
+/-- the earlier of two optional line numbers (the header line wins a tie) -/
+def minLine : Option Nat → Option Nat → Option Nat
+  | some a, some b => some (if b < a then b else a)
+  | some a, none => some a
+  | none, b => b
+
 /-- `_validate` of one chunk made of whole entries; `n` lines per entry; `checkPlus` for FASTQ.
-Mirrors the code: the marker test over ALL entries comes first (line = entry·n), then the `+`
-test (line = entry·n + 2). -/
+Mirrors the (repaired) code: the first entry whose marker is wrong gives line entry·n, the first
+entry whose third line does not start with `+` gives line entry·n + 2, and the EARLIER of the two
+lines is reported (`FastQBuffer._validate` raises the `+` error only if its line is smaller). -/
 def validateChunk (n : Nat) (marker : Nat) (checkPlus : Bool) (es : List Entry) : Option Nat :=
+  minLine ((firstBad (markerOK marker) es).map (· * n))
+    (if checkPlus then (firstBad plusOK es).map (· * n + 2) else none)
+
+/-- the code before the repair: the marker test over ALL entries of the chunk came first, so a
+chunk holding a bad `+` line and, later, a bad header reported the later line -/
+def validateChunkOld (n : Nat) (marker : Nat) (checkPlus : Bool) (es : List Entry) : Option Nat :=
   match firstBad (markerOK marker) es with
   | some i => some (i * n)
   | none =>
@@ -48,6 +61,13 @@ def reported (n : Nat) (marker : Nat) (checkPlus : Bool) : Nat → List (List En
     match validateChunk n marker checkPlus c with
     | some l => some (linesRead + l)
     | none => reported n marker checkPlus (linesRead + c.length * n) cs
+
+def reportedOld (n : Nat) (marker : Nat) (checkPlus : Bool) : Nat → List (List Entry) → Option Nat
+  | _, [] => none
+  | linesRead, c :: cs =>
+    match validateChunkOld n marker checkPlus c with
+    | some l => some (linesRead + l)
+    | none => reportedOld n marker checkPlus (linesRead + c.length * n) cs
 
 /-! ### delimited columns: row of an encoding-error offset -/
 
